@@ -1022,6 +1022,63 @@ package gldap
 //@   panics false
 //@   modifies all(ber.Packet), cell(*ber.Packet), G_bufdata, G_pktnew
 //@   tags C14
+// RFC 4511 4.1.11 Control ::= SEQUENCE { controlType LDAPOID, criticality BOOLEAN DEFAULT FALSE, controlValue OCTET STRING OPTIONAL }
+//@ pure isBool(p *ber.Packet) bool = isU(p, ber.TypePrimitive, ber.TagBoolean)
+//@ func (*gldap.ControlString).Encode
+//@   requires c != nil
+//@   ensures  result != nil && isSeq(result) && nkids(result) >= 1 && isOct(kid(result,0)) && strval(kid(result,0)) == c.ControlType
+//@   ensures  nkids(result) == 1 + cond(c.Criticality, 1, 0) + cond(c.ControlValue != "", 1, 0)
+//@   ensures  c.Criticality ==> isBool(kid(result,1)) && boolval(kid(result,1))
+//@   ensures  c.ControlValue != "" ==> isOct(kid(result, nkids(result)-1)) && strval(kid(result, nkids(result)-1)) == c.ControlValue
+//@   panics false
+//@   modifies all(ber.Packet), cell(*ber.Packet), G_bufdata, G_pktnew
+//@   tags C14
+//@ func (*gldap.ControlManageDsaIT).Encode
+//@   requires c != nil
+//@   ensures  result != nil && isSeq(result) && isOct(kid(result,0)) && strval(kid(result,0)) == ControlTypeManageDsaIT
+//@   ensures  nkids(result) == 1 + cond(c.Criticality, 1, 0) && (c.Criticality ==> isBool(kid(result,1)) && boolval(kid(result,1)))
+//@   panics false
+//@   modifies all(ber.Packet), cell(*ber.Packet), G_bufdata, G_pktnew
+//@   tags C14
+// RFC 2696: pagedResultsControl value ::= SEQUENCE { size INTEGER, cookie OCTET STRING }, wrapped in the controlValue OCTET STRING
+//@ func (*gldap.ControlPaging).Encode
+//@   requires c != nil
+//@   ensures  result != nil && isSeq(result) && nkids(result) == 2 && isOct(kid(result,0)) && strval(kid(result,0)) == ControlTypePaging
+//@   ensures  isOct(kid(result,1)) && nkids(kid(result,1)) == 1 && isSeq(kid(kid(result,1),0)) && nkids(kid(kid(result,1),0)) == 2
+//@   ensures  isInt(kid(kid(kid(result,1),0),0)) && intval(kid(kid(kid(result,1),0),0)) == int64(c.PagingSize) && isOct(kid(kid(kid(result,1),0),1))
+//@   panics false
+//@   modifies all(ber.Packet), cell(*ber.Packet), G_bufdata, G_pktnew
+//@   tags C14
+//@ func (*gldap.ControlMicrosoftNotification).Encode
+//@   requires c != nil
+//@   ensures  result != nil && isSeq(result) && nkids(result) == 1 && isOct(kid(result,0)) && strval(kid(result,0)) == ControlTypeMicrosoftNotification
+//@   panics false
+//@   modifies all(ber.Packet), cell(*ber.Packet), G_bufdata, G_pktnew
+//@   tags C14
+//@ func (*gldap.ControlMicrosoftServerLinkTTL).Encode
+//@   requires c != nil
+//@   ensures  result != nil && isSeq(result) && nkids(result) == 1 && isOct(kid(result,0)) && strval(kid(result,0)) == ControlTypeMicrosoftServerLinkTTL
+//@   panics false
+//@   modifies all(ber.Packet), cell(*ber.Packet), G_bufdata, G_pktnew
+//@   tags C14
+//@ func (*gldap.ControlMicrosoftShowDeleted).Encode
+//@   requires c != nil
+//@   ensures  result != nil && isSeq(result) && nkids(result) == 1 && isOct(kid(result,0)) && strval(kid(result,0)) == ControlTypeMicrosoftShowDeleted
+//@   panics false
+//@   modifies all(ber.Packet), cell(*ber.Packet), G_bufdata, G_pktnew
+//@   tags C14
+//@ func (*gldap.ControlVChuPasswordMustChange).Encode
+//@   requires c != nil
+//@   ensures  result != nil && isSeq(result) && nkids(result) == 1 && isOct(kid(result,0)) && strval(kid(result,0)) == ControlTypeVChuPasswordMustChange
+//@   panics false
+//@   modifies all(ber.Packet), cell(*ber.Packet), G_bufdata, G_pktnew
+//@   tags C14
+//@ func (*gldap.ControlVChuPasswordWarning).Encode
+//@   requires c != nil
+//@   ensures  result != nil && isSeq(result) && nkids(result) == 2 && isOct(kid(result,0)) && strval(kid(result,0)) == ControlTypeVChuPasswordWarning && isOct(kid(result,1))
+//@   panics false
+//@   modifies all(ber.Packet), cell(*ber.Packet), G_bufdata, G_pktnew
+//@   tags C14
 //@ func gldap.encodeControls
 //@   requires forall(j, 0, len(controls), !isNilIface(controls[j]) && iref(controls[j]) != 0)
 //@   ensures  result != nil && fresh(result) && result.ClassType == ber.ClassContext && result.TagType == ber.TypeConstructed && result.Tag == 0 && nkids(result) == len(controls)
